@@ -40,7 +40,8 @@ def repo_struct_formats():
     import ast
     import glob
     fmts = {'<Q32sQIIQ', '<QQQQ', '<L', '<Q', '>B', '<I', '<H', '>H', '>Q', '<q', '<i', '<h', '<b', '>I', '<4s2xB?', '<l'}
-    for fn in glob.glob('/repo/pykdebugparser/**/*.py', recursive=True):
+    from vxlib.paths import REPO
+    for fn in glob.glob(REPO + '/pykdebugparser/**/*.py', recursive=True):
         try:
             tree = ast.parse(open(fn).read())
         except (OSError, SyntaxError):
